@@ -488,7 +488,12 @@ func sweepHookOpts(prop string, keep func(o *Obligation) bool, frames bool) prop
 				case "nil", "index", "slice", "typeassert", "div", "panic", "makeslice", "nilarg":
 					return keep == nil || keep(o)
 				case "post":
-					return strings.HasPrefix(o.Label, "implements ")
+					// the sweep reasons about callers with the postconditions of explicit contracts: they are part of what the
+					// no-panic argument rests on, whichever property they were written for
+					return explicit || strings.HasPrefix(o.Label, "implements ")
+				}
+				if explicit && strings.HasPrefix(o.Kind, "loop#") {
+					return true // invariants the postconditions above are proved with
 				}
 				if strings.HasPrefix(o.Kind, "call/") && strings.Contains(o.Kind, "/pre") {
 					// preconditions of assumed contracts of dependencies (e.g. ast.Inspect needs a non-nil node)
